@@ -338,9 +338,9 @@ Proof.
   - simpl. f_equal. apply IH; auto. destruct Hin as [->|Hin]; [rewrite N.eqb_refl in E; discriminate | exact Hin].
 Qed.
 
-Lemma step_pg_before : forall c s s' k, Inv c s -> window_ok c s -> step c s (EvPgBefore k) = Ok s' -> Inv c s'.
+Lemma step_pg_before : forall c s s' k, Inv c s -> (k = 4 -> window_ok c s) -> step c s (EvPgBefore k) = Ok s' -> Inv c s'.
 Proof.
-  intros c s s' k HI SW H. start_step H hi HP HV; norm_guards.
+  intros c s s' k HI SW0 H. start_step H hi HP HV; norm_guards.
   - (* wal *)
     exists hi. split; [pframe s|].
     unfold running in *. proj. destruct (rc s) eqn:R; try discriminate.
@@ -352,6 +352,8 @@ Proof.
     match goal with G : minl _ = Some ?m |- _ => rename m into mn; rename G into Gm end.
     match goal with G : Nat.ltb _ _ = true |- _ => apply Nat.ltb_lt in G; rename G into Glen end.
     destruct (minl_spec _ _ Gm) as [Min Mle].
+    assert (SW : window_ok c s).
+    { apply SW0. match goal with G : (k =? 4) = true |- _ => apply N.eqb_eq in G; exact G end. }
     assert (Hlt : mn < newest (segs s)).
     { destruct (N.lt_ge_cases mn (newest (segs s))) as [L|L]; [exact L|exfalso].
       destruct HV.
